@@ -5,6 +5,24 @@ from lib import (sfx, strip_expr, strip_refs, show, aggregates, expr_calls, expr
 TOKEN = "abasic_core::tokenizer::Token"
 
 
+def const_keyword_table(F):
+    """keywords kept as data: a named constant `[(&str, Token); N]` of the tokenizer module -> {'DIM': 'Dim', ...}"""
+    out = {}
+    for p, cb in F.bodies.items():
+        if not (str(cb.kind).startswith("Const") and p.startswith("abasic_core::tokenizer::")):
+            continue
+        if "abasic_core::tokenizer::Token)" not in cb.local_ty(0) or "&" not in cb.local_ty(0):
+            continue
+        for blk in cb.blocks:
+            for st in blk["stmts"]:
+                if st["k"] == "assign" and st["rv"]["k"] == "aggregate" and st["rv"].get("agg") == "tuple" and len(st["rv"]["ops"]) == 2:
+                    kw = expr_const_str(cb.expr(st["rv"]["ops"][0]))
+                    e1 = strip_expr(cb.expr(st["rv"]["ops"][1]))
+                    if kw is not None and e1[0] == "agg" and str(e1[1]).endswith("tokenizer::Token"):
+                        out[kw] = e1[2]
+    return out
+
+
 def keyword_table(F):
     """{'DIM': 'Dim', ...} from the if-chain of chomp_keyword("K") calls in chomp_any_keyword (+ span)."""
     b = F.one("Tokenizer::chomp_any_keyword")
@@ -13,6 +31,12 @@ def keyword_table(F):
     out = {}
     for c in b.calls_to("Tokenizer::chomp_keyword"):
         kw = expr_const_str(b.expr(c.args[1]))
+        if kw is None and any(c.bb in blk for blk in b.natural_loops().values()):
+            # `for (keyword, token) in KEYWORDS { if self.chomp_keyword(keyword) { return Some(token.clone()) } }`
+            tab = const_keyword_table(F)
+            if tab:
+                out.update(tab)
+                continue
         if kw is None or c.target is None:
             out["?%d" % c.bb] = None
             continue
@@ -45,7 +69,12 @@ def all_keyword_constants(F):
         if body.crate != "abasic_core":
             continue
         for c in body.calls_to("Tokenizer::chomp_keyword"):
-            out.append((expr_const_str(body.expr(c.args[1])), body.path, c.span))
+            kw = expr_const_str(body.expr(c.args[1]))
+            if kw is None and any(c.bb in blk for blk in body.natural_loops().values()) and const_keyword_table(F):
+                for k2 in sorted(const_keyword_table(F)):
+                    out.append((k2, body.path, c.span))
+                continue
+            out.append((kw, body.path, c.span))
     return out
 
 
